@@ -490,8 +490,19 @@ where
                 debug!("BecomeFollower");
                 self.role = self.role.become_follower()?;
 
-                // Reset vote when stepping down (new term, no vote yet)
-                self.role.state_mut().reset_voted_for()?;
+                // Reset vote when stepping down into a new term (no vote cast in it yet).
+                // A vote recorded for the *current* term must survive a same-term step-down
+                // (noop timeout, failed noop, self-removal, ...): forgetting it would let this
+                // node grant a second vote in the term it already voted - or led - in.
+                let current_term = self.role.current_term();
+                let vote_is_current = self
+                    .role
+                    .state()
+                    .voted_for()?
+                    .is_some_and(|v| v.voted_for_term >= current_term);
+                if !vote_is_current {
+                    self.role.state_mut().reset_voted_for()?;
+                }
 
                 // Notify leader change listeners
                 let current_term = self.role.current_term();
